@@ -970,6 +970,29 @@ func ruleC04Rollover(r *Run, p *Program, rule string) {
 					scan = true
 				}
 			})
+			if !scan {
+				// the scan may be an iterator helper driven by a callback: a test of meta.Full somewhere below swapSegment
+				// (outside the creation path) and a loop over datalog.segments below it
+				full, loop := false, false
+				for _, h := range deepFuncs(p, g) {
+					k := funcKey(h)
+					if k == "(*pogreb.datalog).openSegment" || k == "(*pogreb.datalog).nextWritableSegmentID" || strings.HasPrefix(k, "pogreb.openFile") {
+						continue
+					}
+					instrsOf(h, func(in ssa.Instruction) {
+						if u, ok := in.(*ssa.UnOp); ok && isFieldLoad(u, "pogreb.segmentMeta.Full") {
+							full = true
+						}
+						if ia, ok := in.(*ssa.IndexAddr); ok && inCycle(ia.Block()) && fieldName(ia.X) == "pogreb.datalog.segments" {
+							loop = true
+						}
+						if ix, ok := in.(*ssa.Index); ok && inCycle(ix.Block()) && isFieldLoad(ix.X, "pogreb.datalog.segments") {
+							loop = true
+						}
+					})
+				}
+				scan = full && loop
+			}
 			r.check(scan, rule, funcKey(g)+":prefers-unfilled", p.Pos(g.Pos()), "swapSegment scans the table for an unfilled segment before creating a new one", "swapSegment creates a new segment without first looking for an existing unfilled one")
 		}
 	}
